@@ -1,3 +1,82 @@
-//! C05 — bounded checks (to be written)
+//! C05 — every operation returns a well-formed, correctly typed diagram; every checked constructor
+//! accepts its argument iff the documented conditions hold.
+//!
+//! Oracles (written from the property statement, plain loops over Vec):
+//!   * deep well-formedness read off the raw public fields (`model::strict_wf`, `model::ic_wf`,
+//!     `util::lax_wf`, `util::sic_wf`, `util::ff_wf`): one source list and one target list per edge,
+//!     segment sizes add up to the length of the incidence arrays, every node reference in range;
+//!   * promised types computed from the argument types (identity A→A, symmetry A●B→B●A, singleton and
+//!     batches as declared, tensor concatenates, dagger swaps, composition source-left/target-right,
+//!     functor F(A)→F(B), optic interleaved F●R, adapted optic FA●RB→FB●RA);
+//!   * acceptance conditions of the checked constructors as documented;
+//!   * where a definition is at hand (model.rs) the result is additionally compared with it up to
+//!     isomorphism, so any conforming numbering is accepted.
+//! Check modules: c05/ctors.rs, c05/prims.rs, c05/ops.rs, c05/functors.rs, c05/edit.rs.
 use crate::ctx::Ctx;
-pub fn run(_ctx: &mut Ctx) {}
+use serde_json::Value;
+
+mod ctors;
+mod edit;
+mod functors;
+mod ops;
+mod prims;
+mod util;
+
+type Check = fn(&mut Ctx, &Value);
+const CHECKS: &[(&str, Check)] = &[
+    ("ff_new", ctors::chk_ff_new),
+    ("ic_new", ctors::chk_ic_new),
+    ("ops_new", ctors::chk_ops_new),
+    ("hg_new", ctors::chk_hg_new),
+    ("oh_new", ctors::chk_oh_new),
+    ("spider_new", ctors::chk_spider_new),
+    ("ff_build", prims::chk_ff_build),
+    ("ff_ops", prims::chk_ff_ops),
+    ("ic_ops", prims::chk_ic_ops),
+    ("hg_ops", prims::chk_hg_ops),
+    ("identity", ops::chk_identity),
+    ("twist", ops::chk_twist),
+    ("singleton", ops::chk_singleton),
+    ("tensor_operations", ops::chk_tensor_operations),
+    ("tensor", ops::chk_tensor),
+    ("compose", ops::chk_compose),
+    ("dagger", ops::chk_dagger),
+    ("convert", ops::chk_convert),
+    ("strict_functor", functors::chk_strict_functor),
+    ("lax_functor", functors::chk_lax_functor),
+    ("optic", functors::chk_optic),
+    ("lax_edit", edit::chk_lax_edit),
+    ("var_build", edit::chk_var_build),
+];
+
+pub fn run(ctx: &mut Ctx) {
+    if let Some((name, input)) = ctx.replay.clone() {
+        for (n, c) in CHECKS {
+            if *n == name {
+                c(ctx, &input);
+            }
+        }
+        return;
+    }
+    ctors::run(ctx);
+    prims::run(ctx);
+    ops::run(ctx);
+    functors::run(ctx);
+    edit::run(ctx);
+    ctx.notes.push(
+        "rule: (a) fixed corner lists (empty diagram, isolated/dangling nodes, repeated boundary nodes, zero-arity edges, self loops, cycles, \
+         parallel edges, interface/incidence multiplicity above the node and edge count, operation-free diagrams with non-identity wiring, pending \
+         identifications incl. reflexive/repeated/chains, 64 nodes merged in binomial-tree order, 32+32 boundary nodes merged in binomial-tree order, \
+         object images of length 0/1/2 mixed) crossed with each other; (b) exhaustive: finite-function tables of length<=3 over 0..=3 x targets 0..=4; \
+         segment-size lists of length<=3 over 0..=2 x value counts x declared targets sum-1..sum+3; count triples 0..=3 for operation batches; \
+         (|x|,|w|,#src lists,#tgt lists,s.target,t.target) in 0..=2^4 x 0..=3^2 for hypergraphs; (nodes,s.target,t.target) for open hypergraphs and spiders; \
+         all label lists of length<=3 (identity) and pairs of lists (twist, singleton); batches of <=3 operations with arities 0..=2; all diagrams \
+         with <=1 node (quick) / <=2 nodes (thorough), <=1 edge, lists of length<=1, \
+         unary and in pairs; (c) seeded random: bounds TINY(2 nodes,1 edge,arity 2,iface 2), SM(3,2,2,3), MD(5,3,3,5), WIDE(2 nodes,2 edges,arity 5,iface 6), \
+         3 node labels, edge labels 10..=12, <=3 pending identifications per operand, edit scripts of 1..=8 steps, Var terms of <=4 operations. \
+         non-trivial = per check: non-empty table / at least one segment / diagram with a node and an edge or interface (both operands for binary \
+         checks, composable for compose, source type != target type for dagger, some object image of length != 1 for functors, at least one edge for \
+         optics, >=2 steps for edit scripts)"
+            .into(),
+    );
+}
